@@ -47,7 +47,7 @@ def _vec(v):
     return "(%s, %s, %s)" % (_q(v[0]), _q(v[1]), _q(v[2]))
 
 
-PARTS = (["geometry", "tables", "pointwise", "dual", "bc"], ["bcmodel", "mass_scalar"], ["mass_vector"])
+PARTS = (["geometry", "tables", "pointwise", "dual", "bc"], ["bcmodel", "bcborder", "mass_scalar"], ["mass_vector", "mass_border"])
 
 
 def _start_harness(ctx, strength):
